@@ -897,6 +897,14 @@ func (g *genState) reqsC03(docs map[uuid.UUID]Val) []requestSpec {
 			out = append(out, requestSpec{q: q})
 		}
 	}
+	if !g.large {
+		// a pre-filter that selects EVERY id of the pool: live points without the vector field, deleted points and
+		// re-used node ids must not come back through it (stale vector entries of any store would)
+		q := querySpec{kind: "vamana", prop: ix.path, vec: g.genVec(ix.dim), search: 75, limit: 30}
+		f := querySpec{kind: "idany", ids: append([]uuid.UUID{}, g.pool...)}
+		q.filter = &f
+		out = append(out, requestSpec{q: q})
+	}
 	for k := 0; k < 6; k++ {
 		q := querySpec{kind: "vamana", prop: ix.path, vec: g.genVec(ix.dim)}
 		q.search = []int{25, 30, 50, 75}[r.IntN(4)]
